@@ -424,6 +424,9 @@ def rule_borrowed_r6(ctx):
     ctx.rule("C10.JOIN", "a session that ends always reaches the clean-up that returns its slots: the wait for the reply queue cannot hang on a reply that could not be written "
                          "(shared with C12.JOIN)")
     ctx.borrow(rule_join, {"C12.JOIN": "C10.JOIN"})
+    from .c12 import rule_close_cannot_fail
+    ctx.rule("C10.NOFAIL", "the clean-up reaches the slot releases: the stream close() that precedes them cannot raise (shared with C12.NOFAIL)")
+    ctx.borrow(rule_close_cannot_fail, {"C12.NOFAIL": "C10.NOFAIL"})
 
 
 RULES = [rule_who, rule_finally, rule_pair, rule_manager, rule_timeout_ends, rule_borrowed_r4, rule_counter, rule_borrowed_r6]
